@@ -1,5 +1,5 @@
 # sourced by every script: offline Go environment for the simulation build
-export GOFLAGS=-mod=mod GOPROXY=off GOSUMDB=off GOTOOLCHAIN=local GODEBUG=randautoseed=0
+export GOFLAGS=-mod=mod GOPROXY=file:///root/go/pkg/mod/cache/download GOSUMDB=off GOTOOLCHAIN=local GODEBUG=randautoseed=0
 export GONOSUMCHECK=1 GONOSUMDB='*' GOFLAGS="-mod=mod"
 export VERIF_ROOT=/verif
 export VERIF_GO=${VERIF_GO:-go1.26.8}
